@@ -147,7 +147,15 @@ def handleGlue (id : Nat) (hdr body : List Sexp) : String :=
     match bottom? b, rule? r, levels? ls with
     | some bottom, some rule, some levels =>
       let model := runTop rule bottom levels
-      verdict id (firstDiffE model impl) (glueClause bottom levels impl) (glueClause bottom levels model)
+      let corr := firstDiffE model impl
+      let spec := glueClause bottom levels impl
+      -- "stack-foreign-entry-sync" is the signature of a RECORDED finding (the framework prints KNOWN-FINDING and goes
+      -- on, and does not look at CORR of a case that fails SPEC).  It stands for "the implementation does what the
+      -- model of the defective code does": if the model disagrees anywhere in this case, something else is wrong
+      -- too, and the case gets another name (audit 2, N8)
+      let spec := if spec == "stack-foreign-entry-sync" && corr.isSome
+        then "stack-foreign-entry-sync-and-model-differs" else spec
+      verdict id corr spec (glueClause bottom levels model)
     | _, _, _ => verdict id (some "unparsable glue header") "ok" "ok"
   | _, _ => verdict id (some "unparsable glue case") "ok" "ok"
 
@@ -161,9 +169,12 @@ def outc? : Sexp → Option (Option Outc)
   | .atom "cycle" => some (some (.val .cycle))
   | _ => none
 
-def optBool? : Sexp → Option (Option Bool)
-  | .atom "none" => some none
-  | s => s.bool?.map some
+def tbAttr? : Sexp → Option TbAttr
+  | .atom "none" => some .absent
+  | .atom "0" => some .isNone
+  | .atom "1" => some .real
+  | .atom "2" => some .garbage
+  | _ => none
 
 def genAttrs? : Sexp → Option (List Nat × List Nat)
   | .list [.atom "genattrs", .list (.atom "init" :: a), .list (.atom "reads" :: b)] => do
@@ -197,7 +208,7 @@ def obj? (gen : List Nat × List Nat) (ci : Bool) : Sexp → Option Obj
   | .list [.atom "gen"] => some (.asyncGen gen.1 gen.2)
   | .list [.atom "constinit"] => some (.constInit ci)
   | .list [.atom "fe", n, x, ta, tg] => do
-    some (.fmtErr { isNone := (← n.bool?), isExc := (← x.bool?), tbAttr := (← optBool? ta), tbArg := (← tg.bool?) })
+    some (.fmtErr { isNone := (← n.bool?), isExc := (← x.bool?), tbAttr := (← tbAttr? ta), tbArg := (← tg.bool?) })
   | _ => none
 
 def op? : Sexp → Option Op
